@@ -279,6 +279,8 @@ def run_scenario(res, scenario, max_paths=64, max_decisions=60, timeout_ms=20000
                         ok = False
                     if not ok:
                         continue
+                    if any(_on_boundary(c, F.env, 1e-7) for c in pc):
+                        break      # a branch condition is an equality (up to rounding) at this point: the float run may take either side
                     flab = {}
                     for l2, g2, _ in ftriples:
                         flab.setdefault(l2, g2)
@@ -293,6 +295,8 @@ def run_scenario(res, scenario, max_paths=64, max_decisions=60, timeout_ms=20000
                             if isinstance(g1, core.SB):
                                 s1 = bool(solve.evalf(g1.t, F.env))
                                 same = s1 == bool(g2)
+                                if not same and _on_boundary(g1.t, F.env):
+                                    continue      # a comparison that is an equality at this point: rounding decides it either way
                             elif isinstance(g1, (bool, str, tuple)) or isinstance(g2, (bool, np.bool_, str, tuple)):
                                 same = g1 == g2
                                 s1 = g1
@@ -390,6 +394,22 @@ def check_triples_batched(res, triples, timeout_ms=20000, tol=None, tag=""):
         else:
             v, model, _ = solve.prove(goal, timeout_ms=timeout_ms)
         res.ob(v, what, {"kind": "model", "env": solve.model_env(model)} if v == "sat" else None)
+
+
+def _on_boundary(t, env, tol=1e-9):
+    """is the (in)equality t within rounding distance of its boundary at env?"""
+    import z3
+    try:
+        if z3.is_not(t):
+            return _on_boundary(t.children()[0], env, tol)
+        if z3.is_le(t) or z3.is_ge(t) or z3.is_lt(t) or z3.is_gt(t) or z3.is_eq(t):
+            a, b = (solve.evalf(c, env) for c in t.children())
+            return abs(a - b) <= tol * (1 + abs(a) + abs(b))
+        if z3.is_and(t) or z3.is_or(t):
+            return any(_on_boundary(c, env, tol) for c in t.children())
+    except (KeyError, ZeroDivisionError, OverflowError, ValueError, TypeError, ArithmeticError):
+        return True
+    return False
 
 
 def _same_term(a, b):
